@@ -10,6 +10,7 @@ import (
 	"os"
 	"runtime"
 	"sort"
+	"strings"
 	"sync"
 	"sync/atomic"
 	"time"
@@ -18,6 +19,7 @@ import (
 	coreiface "github.com/ipfs/kubo/core/coreiface"
 	"github.com/ipfs/kubo/core/coreiface/options"
 	p2ppubsub "github.com/libp2p/go-libp2p-pubsub"
+	pubsubpb "github.com/libp2p/go-libp2p-pubsub/pb"
 	"github.com/libp2p/go-libp2p/core/crypto"
 	"github.com/libp2p/go-libp2p/core/host"
 	"github.com/libp2p/go-libp2p/core/network"
@@ -242,7 +244,26 @@ func canonLeaves(p []c20Ev) {
 // watchPeersRun drives the real psTopic.WatchPeers with the scripted snapshots and returns
 // the events it emitted, poll by poll, and the final topic.Peers().
 func watchPeersRun(pool *c20Pool, self peer.ID, topicName string, snaps [][]int, interval time.Duration) (polls [][]c20Ev, final []int, hung bool, err error) {
-	api := newC20API(self)
+	return watchPeersRunOn(nil, pool, self, topicName, snaps, interval)
+}
+
+// c20Watched is an adapter instance that outlives one watcher (watchPeersRunOn).
+type c20Watched struct {
+	api *c20API
+	ps  iface.PubSubInterface
+}
+
+// watchPeersRunOn: on an instance that may have served a watcher of the same topic before
+// (that watcher's context has ended and its goroutine has returned); nil = a new instance.
+func watchPeersRunOn(on *c20Watched, pool *c20Pool, self peer.ID, topicName string, snaps [][]int, interval time.Duration) (polls [][]c20Ev, final []int, hung bool, err error) {
+	if on == nil {
+		on = &c20Watched{}
+	}
+	if on.api == nil {
+		on.api = newC20API(self)
+		on.ps = pubsubcoreapi.NewPubSub(on.api, self, interval, nil, nil)
+	}
+	api := on.api
 	ctx, cancel := context.WithCancel(context.Background())
 	defer cancel()
 
@@ -278,7 +299,7 @@ func watchPeersRun(pool *c20Pool, self peer.ID, topicName string, snaps [][]int,
 		return out, nil
 	}
 
-	ps := pubsubcoreapi.NewPubSub(api, self, interval, nil, nil)
+	ps := on.ps
 	topic, err := ps.TopicSubscribe(ctx, topicName)
 	if err != nil {
 		return nil, nil, false, err
@@ -474,7 +495,11 @@ func c20WatchCases(r *Run, pool *c20Pool) error {
 		}
 		self := pool.id(len(pool.ids)) // the local peer never appears in the snapshots
 		topicName := fmt.Sprintf("/orbitdb/verif/topic-%d", si)
-		polls, final, hung, err := watchPeersRun(pool, self, topicName, snaps, time.Millisecond)
+		// poll interval: none at all (the next poll follows at once), far below and around the
+		// time one poll takes, and longer
+		interval := []time.Duration{0, 0, 50 * time.Microsecond, 50 * time.Microsecond, time.Millisecond, time.Millisecond, time.Millisecond, 3 * time.Millisecond}[r.Rng.Intn(8)]
+		r.Count("watch-interval:" + interval.String())
+		polls, final, hung, err := watchPeersRun(pool, self, topicName, snaps, interval)
 		if err != nil {
 			return err
 		}
@@ -492,7 +517,61 @@ func c20WatchCases(r *Run, pool *c20Pool) error {
 		}
 		r.Count("watch")
 		r.AddCase(fmt.Sprintf("(CWatch %s %s %s)", c20Snaps(snaps), c20Events(polls), sim.CoqListN(final)),
-			map[string]interface{}{"kind": "watch", "sig": "watch", "snaps": snaps, "events": nev, "adapter": "pubsubcoreapi"}, nev >= 2)
+			map[string]interface{}{"kind": "watch", "sig": "watch", "snaps": snaps, "events": nev, "adapter": "pubsubcoreapi", "interval": interval.String()}, nev >= 2)
+	}
+	return nil
+}
+
+// c20RewatchCases: the topic is watched, the watcher's context ends (a store is closed), and
+// the same topic of the same adapter instance is watched again (the store is opened again on
+// the same OrbitDB instance: TopicSubscribe hands out the topic it has).  The second watcher
+// is a watcher like any other: what it is told, replayed from nothing, is the membership.
+func c20RewatchCases(r *Run, pool *c20Pool) error {
+	scripts := 16
+	if r.Tier == "thorough" {
+		scripts = 80
+	}
+	for si := 0; si < scripts; si++ {
+		u := 1 + r.Rng.Intn(6)
+		first, _ := genSnaps(r, u, 1+r.Rng.Intn(4))
+		second, _ := genSnaps(r, u, 1+r.Rng.Intn(5))
+		switch si {
+		case 0:
+			first, second = [][]int{{1, 2}}, [][]int{{1, 2}} // the members stay while the store is closed and reopened
+		case 1:
+			first, second = [][]int{{1, 2}}, [][]int{{2, 3}}
+		case 2:
+			first, second = [][]int{{1}, {}}, [][]int{{1}}
+		}
+		if si%2 == 1 {
+			second[0] = append([]int(nil), first[len(first)-1]...) // nothing changed in between
+		}
+		self := pool.id(len(pool.ids))
+		topicName := fmt.Sprintf("/orbitdb/verif/rewatch-%d", si)
+		on := &c20Watched{}
+		if _, _, hung, err := watchPeersRunOn(on, pool, self, topicName, first, time.Millisecond); err != nil || hung {
+			if err == nil {
+				err = fmt.Errorf("first watcher hung")
+			}
+			return fmt.Errorf("rewatch: %w", err)
+		}
+		polls, final, hung, err := watchPeersRunOn(on, pool, self, topicName, second, time.Millisecond)
+		if err != nil {
+			return err
+		}
+		descr := map[string]interface{}{"kind": "rewatch", "sig": "watch:rewatch", "adapter": "pubsubcoreapi", "before": first, "snaps": second}
+		if hung {
+			r.AddDirect("watch:hang", "the second WatchPeers of a topic did not reach the end of the membership script within the watchdog", descr)
+			continue
+		}
+		nev := 0
+		for _, p := range polls {
+			nev += len(p)
+		}
+		descr["events"] = nev
+		r.Count("rewatch")
+		prev := first[len(first)-1]
+		r.AddCase(fmt.Sprintf("(CRewatch %s %s %s %s)", sim.CoqListN(prev), c20Snaps(second), c20Events(polls), sim.CoqListN(final)), descr, len(prev) > 0)
 	}
 	return nil
 }
@@ -709,17 +788,53 @@ func c20ChannelCases(r *Run) error {
 		}
 	}
 	ids = append(ids, peer.ID(""), peer.ID("\x00"), peer.ID("\x00\x00"), peer.ID("\x00\x01"), peer.ID("\x01"), peer.ID("a"), peer.ID("ab"))
+	// families of ids of different lengths with equal prefixes; the members of a family, in
+	// both orders, are pairs of every run (edge):
+	//  - leading zero bytes: the string forms "1", "11", ... are prefixes of one another;
+	//  - identity-multihash ids (what short keys get) over prefixes of one random key;
+	//  - a key-derived id with bytes cut off / added at its end
+	var edge [][2]peer.ID
+	nBase := len(ids)
+	family := func(fam []peer.ID) {
+		for i := range fam {
+			ids = append(ids, fam[i])
+			for j := range fam {
+				if i != j && (j == i+1 || i == j+1 || r.Rng.Intn(3) == 0) {
+					edge = append(edge, [2]peer.ID{fam[i], fam[j]})
+				}
+			}
+		}
+	}
+	family([]peer.ID{peer.ID("\x00\x00\x00"), peer.ID("\x00\x00\x00\x00"), peer.ID("\x00\x00\x00\x00\x00\x00\x00\x00")})
+	seedKey := make([]byte, 36)
+	r.Rng.Read(seedKey)
+	var idfam []peer.ID
+	for _, l := range []int{1, 2, 3, 8, 20, 36} {
+		idfam = append(idfam, peer.ID(append([]byte{0x00, byte(l)}, seedKey[:l]...)))
+	}
+	family(idfam)
+	full := []byte(ids[0])
+	family([]peer.ID{peer.ID(full[:len(full)-10]), peer.ID(full[:len(full)-1]), ids[0], peer.ID(append(append([]byte(nil), full...), 0x00)), peer.ID(append(append([]byte(nil), full...), 0x00, 0x01))})
 	str := func(id peer.ID) string { return sim.CoqBytes([]byte(id.String())) }
-	pairs := 60
+	pairs := 60 + len(edge)
 	if r.Tier == "thorough" {
-		pairs = len(ids) * len(ids)
+		pairs += nBase * nBase // and every pair of the ids outside the families
 	}
 	for pi := 0; pi < pairs; pi++ {
 		var a, b peer.ID
-		if r.Tier == "thorough" {
-			a, b = ids[pi/len(ids)], ids[pi%len(ids)]
+		if pi < len(edge) {
+			a, b = edge[pi][0], edge[pi][1]
+			r.Count("channel:prefix-family-pair")
+		} else if k := pi - len(edge) - 60; k >= 0 {
+			a, b = ids[k/nBase], ids[k%nBase]
 		} else {
 			a, b = ids[r.Rng.Intn(len(ids))], ids[r.Rng.Intn(len(ids))]
+		}
+		if len(a.String()) != len(b.String()) {
+			r.Count("channel:different-lengths")
+		}
+		if a != b && (strings.HasPrefix(a.String(), b.String()) || strings.HasPrefix(b.String(), a.String())) {
+			r.Count("channel:string-prefix")
 		}
 		payload := make([]byte, r.Rng.Intn(20))
 		r.Rng.Read(payload)
@@ -760,12 +875,14 @@ func c20ChannelCases(r *Run) error {
 // c20MonitorCases: Connect subscribes to the pairwise topic and runs monitorTopic; the
 // scripted subscription delivers messages of the local peer, of the channel's peer and
 // (thirdParty) of other peers; Connect itself returns after its one-second peer wait.
-func c20MonitorCases(r *Run, pool *c20Pool, thirdParty bool) error {
+func c20MonitorCases(r *Run, pools []*c20Pool, thirdParty bool) error {
 	chans := 12
 	if r.Tier == "thorough" {
 		chans = 60
 	}
 	type mon struct {
+		pool           *c20Pool
+		poolN          int
 		selfN, targetN int
 		msgs           []c20Msg
 		sub            *c20Sub
@@ -777,6 +894,9 @@ func c20MonitorCases(r *Run, pool *c20Pool, thirdParty bool) error {
 	var wg sync.WaitGroup
 	for i := range mons {
 		m := &mon{selfN: 1 + r.Rng.Intn(3)}
+		m.poolN = i % len(pools) // pool 0: key-derived ids; the others: ids of different lengths with equal prefixes
+		m.pool = pools[m.poolN]
+		pool := m.pool
 		m.targetN = 1 + (m.selfN+r.Rng.Intn(2))%3
 		senders := []int{m.selfN, m.targetN}
 		if thirdParty {
@@ -791,7 +911,7 @@ func c20MonitorCases(r *Run, pool *c20Pool, thirdParty bool) error {
 	}
 	for _, m := range mons {
 		m := m
-		self, target := pool.id(m.selfN), pool.id(m.targetN)
+		self, target := m.pool.id(m.selfN), m.pool.id(m.targetN)
 		api := newC20API(self)
 		api.ps.subFn = func(context.Context, string) (coreiface.PubSubSubscription, error) { return m.sub, nil }
 		api.ps.peersFn = func(context.Context, string) ([]peer.ID, error) { return []peer.ID{target}, nil }
@@ -823,7 +943,10 @@ func c20MonitorCases(r *Run, pool *c20Pool, thirdParty bool) error {
 		}
 		evs := m.drain()
 		m.closeAll()
-		descr := map[string]interface{}{"kind": "monitor", "sig": "monitor", "adapter": "oneonone", "self": m.selfN, "target": m.targetN, "msgs": len(m.msgs), "chan": i}
+		pool := m.pool
+		descr := map[string]interface{}{"kind": "monitor", "sig": "monitor", "adapter": "oneonone", "self": m.selfN, "target": m.targetN, "msgs": len(m.msgs), "chan": i,
+			"ids": []string{pool.id(1).String(), pool.id(2).String(), pool.id(3).String(), pool.id(4).String(), pool.id(5).String()}}
+		r.Count(fmt.Sprintf("monitor-ids:pool%d", m.poolN))
 		if thirdParty {
 			descr["sig"] = "monitor:third-party"
 		}
@@ -1325,24 +1448,78 @@ func c20InterleaveCases(r *Run, ctx context.Context, net *c20Net) error {
 }
 
 // ---------------------------------------------------------------------------------------
-// (d) pubsubraw over go-libp2p-pubsub (floodsub) on in-memory hosts
+// (d) pubsubraw over go-libp2p-pubsub on in-memory hosts, over the configurations of the
+// libp2p pubsub instance the adapter may be handed: router (floodsub, gossipsub), signing
+// (default StrictSign; WithNoAuthor + content-derived message ids = StrictNoSign: messages
+// carry neither author nor sequence number; WithMessageAuthor(another key of the host): the
+// author differs from the id the adapter was given), two or three hosts, and with three
+// either a full mesh or a line 1 - 2 - 3, where everything between 1 and 3 is relayed by 2
+// (the hop a message arrives from is then not its author).
 // ---------------------------------------------------------------------------------------
 
-func c20RawPubSubCases(r *Run) error {
-	rounds := 3
-	if r.Tier == "thorough" {
-		rounds = 15
+type c20RawCfg struct {
+	router string // flood | gossip
+	sign   string // signed | noauthor | otherauthor
+	hosts  int
+	line   bool
+}
+
+func (c c20RawCfg) String() string {
+	topo := "full"
+	if c.line {
+		topo = "line"
 	}
-	for ri := 0; ri < rounds; ri++ {
-		if err := c20RawPubSubRound(r, ri); err != nil {
-			return err
+	return fmt.Sprintf("%s/%s/%d-%s", c.router, c.sign, c.hosts, topo)
+}
+
+func c20RawConfigs(r *Run) []c20RawCfg {
+	var all []c20RawCfg
+	for _, router := range []string{"flood", "gossip"} {
+		for _, sign := range []string{"signed", "noauthor", "otherauthor"} {
+			all = append(all, c20RawCfg{router, sign, 2, false}, c20RawCfg{router, sign, 3, false}, c20RawCfg{router, sign, 3, true})
 		}
 	}
+	if r.Tier == "thorough" {
+		out := append([]c20RawCfg(nil), all...)
+		for i := 0; i < 12; i++ {
+			out = append(out, all[r.Rng.Intn(len(all))])
+		}
+		return out
+	}
+	out := []c20RawCfg{
+		{"flood", "signed", 3, false}, // the one configuration there was
+		{"flood", "noauthor", 3, true},
+		{"flood", "noauthor", 2, false},
+		{"flood", "otherauthor", 3, true},
+		{"gossip", "noauthor", 3, true},
+		{"gossip", "signed", 3, false},
+		{"gossip", "otherauthor", 2, false},
+	}
+	for i := 0; i < 3; i++ {
+		out = append(out, all[r.Rng.Intn(len(all))])
+	}
+	return out
+}
+
+func c20RawPubSubCases(r *Run) error {
+	start := time.Now()
+	cfgs := c20RawConfigs(r)
+	for ri, cfg := range cfgs {
+		if err := c20RawPubSubRound(r, ri, cfg); err != nil {
+			return fmt.Errorf("pubsubraw %s: %w", cfg, err)
+		}
+	}
+	r.Notes = append(r.Notes, fmt.Sprintf("pubsubraw: %d rounds in %.1f s", len(cfgs), time.Since(start).Seconds()))
 	return nil
 }
 
-func c20RawPubSubRound(r *Run, ri int) error {
-	const nodes = 3
+func c20ContentMsgID(m *pubsubpb.Message) string {
+	h := sha256.Sum256(m.Data)
+	return string(h[:])
+}
+
+func c20RawPubSubRound(r *Run, ri int, cfg c20RawCfg) error {
+	nodes := cfg.hosts
 	ctx, cancel := context.WithCancel(context.Background())
 	defer cancel()
 	mn := mocknet.New()
@@ -1350,6 +1527,7 @@ func c20RawPubSubRound(r *Run, ri int) error {
 	type node struct {
 		h      host.Host
 		topic  iface.PubSubTopic
+		nbrs   []int // numbers of the directly connected nodes
 		mu     sync.Mutex
 		got    [][]byte
 		peerEv []c20Ev
@@ -1364,16 +1542,58 @@ func c20RawPubSubRound(r *Run, ri int) error {
 		ns[i] = &node{h: h}
 		num[h.ID()] = i + 1
 	}
-	if err := mn.LinkAll(); err != nil {
-		return err
+	linked := func(i, j int) bool { return i != j && (!cfg.line || i-j == 1 || j-i == 1) }
+	for i := range ns {
+		for j := range ns {
+			if linked(i, j) {
+				ns[i].nbrs = append(ns[i].nbrs, j+1)
+				if i < j {
+					if _, err := mn.LinkPeers(ns[i].h.ID(), ns[j].h.ID()); err != nil {
+						return err
+					}
+				}
+			}
+		}
 	}
 	topicName := fmt.Sprintf("/orbitdb/verif/raw-%d", ri)
+	const heartbeat = 100 * time.Millisecond
 	for _, n := range ns {
 		n := n
-		ps, err := p2ppubsub.NewFloodSub(ctx, n.h)
+		var opts []p2ppubsub.Option
+		switch cfg.sign {
+		case "noauthor":
+			opts = append(opts, p2ppubsub.WithNoAuthor(), p2ppubsub.WithMessageIdFn(c20ContentMsgID))
+		case "otherauthor":
+			priv, pub, err := crypto.GenerateEd25519Key(r.Rng)
+			if err != nil {
+				return err
+			}
+			author, err := peer.IDFromPublicKey(pub)
+			if err != nil {
+				return err
+			}
+			if err := n.h.Peerstore().AddPrivKey(author, priv); err != nil {
+				return err
+			}
+			if err := n.h.Peerstore().AddPubKey(author, pub); err != nil {
+				return err
+			}
+			opts = append(opts, p2ppubsub.WithMessageAuthor(author))
+		}
+		var ps *p2ppubsub.PubSub
+		var err error
+		if cfg.router == "gossip" {
+			gp := p2ppubsub.DefaultGossipSubParams()
+			gp.HeartbeatInitialDelay = 10 * time.Millisecond
+			gp.HeartbeatInterval = heartbeat
+			ps, err = p2ppubsub.NewGossipSub(ctx, n.h, append(opts, p2ppubsub.WithGossipSubParams(gp))...)
+		} else {
+			ps, err = p2ppubsub.NewFloodSub(ctx, n.h, opts...)
+		}
 		if err != nil {
 			return err
 		}
+		// the adapter is given the host's id, as baseorbitdb does (the id of the node's own key)
 		t, err := pubsubraw.NewPubSub(ps, n.h.ID(), nil, nil).TopicSubscribe(ctx, topicName)
 		if err != nil {
 			return err
@@ -1407,8 +1627,14 @@ func c20RawPubSubRound(r *Run, ri int) error {
 			}
 		}()
 	}
-	if err := mn.ConnectAllButSelf(); err != nil {
-		return err
+	for i := range ns {
+		for j := i + 1; j < nodes; j++ {
+			if linked(i, j) {
+				if _, err := mn.ConnectPeers(ns[i].h.ID(), ns[j].h.ID()); err != nil {
+					return err
+				}
+			}
+		}
 	}
 	until := func(cond func() bool) bool {
 		deadline := time.Now().Add(c20Watchdog)
@@ -1420,32 +1646,17 @@ func c20RawPubSubRound(r *Run, ri int) error {
 		}
 		return true
 	}
-	// everybody sees everybody else on the topic (positive expectation, polled)
+	// everybody sees its neighbours on the topic (positive expectation, polled)
 	if !until(func() bool {
 		for _, n := range ns {
 			ps, _ := n.topic.Peers(ctx)
-			if len(ps) != nodes-1 {
+			if len(ps) != len(n.nbrs) {
 				return false
 			}
 		}
 		return true
 	}) {
-		return fmt.Errorf("pubsubraw: in-memory floodsub topology did not form")
-	}
-	// phase 1: every node publishes its messages
-	var all []c20Msg
-	var allN []int
-	for i, n := range ns {
-		k := 1 + r.Rng.Intn(12)
-		for j := 0; j < k; j++ {
-			data := []byte{byte(i + 1), byte(j)} // unique: pubsub itself deduplicates by message id, not content
-			data = append(data, c20Payload(r, r.Rng.Intn(5))...)
-			if err := n.topic.Publish(ctx, data); err != nil {
-				return err
-			}
-			all = append(all, c20Msg{from: n.h.ID(), data: data})
-			allN = append(allN, i+1)
-		}
+		return fmt.Errorf("in-memory pubsub topology did not form")
 	}
 	count := func(n *node, pred func([]byte) bool) int {
 		n.mu.Lock()
@@ -1458,7 +1669,55 @@ func c20RawPubSubRound(r *Run, ri int) error {
 		}
 		return c
 	}
+	isWarm := func(b []byte) bool { return len(b) == 3 && b[0] == 0xFD }
 	isEnd := func(b []byte) bool { return len(b) == 2 && b[0] == 0xEE }
+	if cfg.router == "gossip" {
+		// gossipsub relays over a mesh that is built by its heartbeat, and what it does with a
+		// message published before that is libp2p's business, not the adapter's: warm-up messages
+		// (not part of the observation) are published until one of every node has reached every
+		// other node, and the heartbeat gets a few more rounds to complete the meshes
+		round := 0
+		if !until(func() bool {
+			done := true
+			for i, n := range ns {
+				for j := range ns {
+					if j != i && count(n, func(b []byte) bool { return isWarm(b) && int(b[1]) == j+1 }) == 0 {
+						done = false
+					}
+				}
+			}
+			if done {
+				return true
+			}
+			if round < 250 {
+				for i, n := range ns {
+					_ = n.topic.Publish(ctx, []byte{0xFD, byte(i + 1), byte(round)})
+				}
+				round++
+			}
+			time.Sleep(heartbeat / 2)
+			return false
+		}) {
+			return fmt.Errorf("gossipsub did not carry a message between every pair of in-memory hosts")
+		}
+		time.Sleep(3 * heartbeat)
+		r.Dist["raw:gossip-warmup-rounds"] += round
+	}
+	// phase 1: every node publishes its messages
+	var all []c20Msg
+	var allN []int
+	for i, n := range ns {
+		k := 1 + r.Rng.Intn(12)
+		for j := 0; j < k; j++ {
+			data := []byte{byte(i + 1), byte(j)} // unique: pubsub itself deduplicates by message id (content-derived without authors)
+			data = append(data, c20Payload(r, r.Rng.Intn(5))...)
+			if err := n.topic.Publish(ctx, data); err != nil {
+				return err
+			}
+			all = append(all, c20Msg{from: n.h.ID(), data: data})
+			allN = append(allN, i+1)
+		}
+	}
 	arrived := until(func() bool {
 		for i, n := range ns {
 			want := 0
@@ -1467,7 +1726,7 @@ func c20RawPubSubRound(r *Run, ri int) error {
 					want++
 				}
 			}
-			if count(n, func(b []byte) bool { return !isEnd(b) && int(b[0]) != i+1 }) < want {
+			if count(n, func(b []byte) bool { return !isEnd(b) && !isWarm(b) && int(b[0]) != i+1 }) < want {
 				return false
 			}
 		}
@@ -1492,7 +1751,12 @@ func c20RawPubSubRound(r *Run, ri int) error {
 	})
 	for i, n := range ns {
 		n.mu.Lock()
-		got := append([][]byte(nil), n.got...)
+		var got [][]byte
+		for _, g := range n.got {
+			if !isWarm(g) {
+				got = append(got, g)
+			}
+		}
 		pev := append([]c20Ev(nil), n.peerEv...)
 		n.mu.Unlock()
 		sort.Slice(got, func(a, b int) bool { return bytes.Compare(got[a], got[b]) < 0 }) // cross-sender order is not an observable
@@ -1500,21 +1764,22 @@ func c20RawPubSubRound(r *Run, ri int) error {
 		for k, m := range all {
 			msgs[k] = fmt.Sprintf("(%s, %s)", sim.CoqN(num[m.from]), sim.CoqBytes(m.data))
 		}
-		descr := map[string]interface{}{"kind": "forward-raw", "sig": "forward:raw", "adapter": "pubsubraw", "self": i + 1, "published": len(all), "received": len(got), "arrived": arrived, "ended": ended}
+		relayed := cfg.line && i != 1
+		descr := map[string]interface{}{"kind": "forward-raw", "sig": "forward:raw", "adapter": "pubsubraw", "config": cfg.String(),
+			"router": cfg.router, "signing": cfg.sign, "hosts": nodes, "line": cfg.line, "relayed": relayed,
+			"self": i + 1, "published": len(all), "received": len(got), "arrived": arrived, "ended": ended}
 		r.Count("forward:raw")
+		r.Count("forward:raw:" + cfg.String())
+		if relayed {
+			r.Count("forward:raw:relayed-by-third-peer")
+		}
 		r.AddCase(fmt.Sprintf("(CForward false %s %s %s)", sim.CoqN(i+1), sim.CoqList(msgs), c20CoqPayloads(got)), descr, true)
-		// membership events of libp2p pubsub passed through WatchPeers: every other node
+		// membership events of libp2p pubsub passed through WatchPeers: every neighbour
 		// joined exactly once (per-peer order kept, cross-peer order canonicalised)
 		sort.SliceStable(pev, func(a, b int) bool { return pev[a].peer < pev[b].peer })
-		var others []int
-		for k := 1; k <= nodes; k++ {
-			if k != i+1 {
-				others = append(others, k)
-			}
-		}
 		r.Count("watch:raw")
-		r.AddCase(fmt.Sprintf("(CWatch %s %s %s)", c20Snaps([][]int{others}), c20Events([][]c20Ev{pev}), sim.CoqListN(others)),
-			map[string]interface{}{"kind": "watch-raw", "sig": "watch:raw", "adapter": "pubsubraw", "self": i + 1, "events": len(pev)}, true)
+		r.AddCase(fmt.Sprintf("(CWatch %s %s %s)", c20Snaps([][]int{n.nbrs}), c20Events([][]c20Ev{pev}), sim.CoqListN(n.nbrs)),
+			map[string]interface{}{"kind": "watch-raw", "sig": "watch:raw", "adapter": "pubsubraw", "config": cfg.String(), "self": i + 1, "events": len(pev)}, true)
 	}
 	return nil
 }
@@ -1534,16 +1799,26 @@ func runC20(r *Run) error {
 	if err := c20WatchCases(r, pool); err != nil {
 		return err
 	}
+	if err := c20RewatchCases(r, pool); err != nil {
+		return err
+	}
 	if err := c20ForwardCases(r, pool); err != nil {
 		return err
 	}
 	if err := c20ChannelCases(r); err != nil {
 		return err
 	}
-	if err := c20MonitorCases(r, pool, false); err != nil {
+	// oneonone monitors: key-derived ids, and ids of different lengths whose string forms
+	// ("1", "11", ...) resp. bytes are prefixes of one another
+	pools := []*c20Pool{pool, {num: map[peer.ID]int{}}, {num: map[peer.ID]int{}}}
+	for k := 1; k <= 5; k++ {
+		pools[1].add(peer.ID(strings.Repeat("\x00", k)))
+		pools[2].add(peer.ID(string(pool.id(7))[:30+k]))
+	}
+	if err := c20MonitorCases(r, pools, false); err != nil {
 		return err
 	}
-	if err := c20MonitorCases(r, pool, true); err != nil {
+	if err := c20MonitorCases(r, pools, true); err != nil {
 		return err
 	}
 	ctx, cancel := context.WithCancel(context.Background())
